@@ -370,7 +370,7 @@ def gen_c07(ctx, probe_results=None):
             base.append(f"in={a} out={b} err={c} det={len(base) % 2} cwd={hx(cw[10])} uid=0 gid=0 pgid=1 argv={TRUE} closed={closed}")
     if probe_results is None:
         return base
-    cases = []
+    cases = list(base)          # the fault-free launches themselves
     for spec, pr in zip(base, probe_results):
         counts = {}
         for l in pr["log"]:
@@ -392,7 +392,7 @@ def gen_c07(ctx, probe_results=None):
     # child's stream set-up
     for closed in CLOSED_SETS:
         for i, o, e in itertools.product(["N", "P"], repeat=3):
-            for prog in ([os.path.join(dirs['missing'], 'prog')] if ctx.tier == "quick" else
+            for prog in ([os.path.join(dirs['missing'], 'prog'), "/bin/true"] if ctx.tier == "quick" else
                          [os.path.join(dirs['missing'], 'prog'), os.path.join(dirs['noexec'], 'prog'), "/bin/true"]):
                 cases.append(f"in={i} out={o} err={e} det={(len(cases)) % 2} argv={hx(prog)} closed={closed}")
     return cases
@@ -407,6 +407,20 @@ def oracle_c07(c, viol):
     started = any(r == "OK" for _, r in ex)
     if res[0] == "ok" and not started:
         viol("Popen::create returned Ok although no program image was started", "path-of-only-empty-entries" if not ex else None)
+    # "returns only after that is known", and knows it from end-of-file on the status channel: the started program must
+    # not hold a copy of it (create() would block until the program exits, or take what it writes there for an errno)
+    snap = snapshot(c)
+    status_id = None
+    for l in c["log"]:
+        m = re.match(r"P pipe -> \d+ \d+ id=(\S+)", l)
+        if m:
+            status_id = m.group(1)
+            break
+    if started and snap and status_id:
+        for k, v in snap.items():
+            if re.match(r"fd\d+$", k) and ":".join(v.split(":")[:2]) == status_id and v.split(":")[3] != "1":
+                viol(f"the started program holds the launch-status channel as its descriptor {k[2:]} ({v}): Popen::create sees no "
+                     f"end-of-file on it until the program exits, and takes anything the program writes there for an error code")
     if res[0] != "ok" and started:
         viol(f"Popen::create returned {' '.join(res)} although the program was started")
     faults = kv.get("faults", "-")
@@ -448,6 +462,10 @@ def gen_c08(ctx):
         npipes = 1 + (i, o, e).count("P")
         for k in range(1, npipes + 1):
             cases.append(f"in={i} out={o} err={e} det=0 live=0 argv={TRUE} window={k}")
+        # ... and while this launch waits for its child's exec (the read of the status channel): by then the parent must hold
+        # nothing inheritable any more -- that window is as long as the child's whole pre-exec phase
+        cases.append(f"in={i} out={o} err={e} det=0 live=0 argv={TRUE} window=r")
+        cases.append(f"in={i} out={o} err={e} det=1 live=0 argv={hx('/nonexistent/prog')} window=r")
     # the caller runs with some of its descriptors 0-2 closed
     for closed in CLOSED_SETS:
         for i, o, e in itertools.product(["N", "P"], repeat=3):
@@ -470,7 +488,11 @@ def oracle_c08_window(c, viol):
                 if fd in parent:
                     mine.add(parent[fd])
     leaked = sorted(f"fd {fd}" for fd, ino in other.items() if ino in mine)
-    if leaked:
+    if leaked and c["kv"]["window"] == "r":
+        viol(f"a child started by another spawn while this launch was waiting for its own child's exec (the read of the "
+             f"launch-status channel, i.e. after this launch's fork) holds pipe ends of this launch ({', '.join(leaked)}): the "
+             f"parent still held them inheritable")
+    elif leaked:
         viol(f"a child started by another spawn right after this launch's pipe() number {c['kv']['window']} holds pipe ends of "
              f"this launch ({', '.join(leaked)}): they are inheritable until the following fcntl / until this launch's fork "
              f"has closed its child ends", "concurrent-spawn-window")
@@ -600,6 +622,14 @@ def gen_c17(ctx):
     cases.append(f"in=N out=M err=N det=0 uid=0 gid=0 pgid=1 argv={TRUE}")
     cases.append(f"in=P out=P err=P det=0 argv={TRUE} faults=C.dup2.1.24")
     cases.append(f"in=N out=N err=N det=0 argv={TRUE} faults=C.setpgid.0.1 pgid=1")
+    # "also when exec fails": every way execve can refuse a file, at the first and at a later attempt of a PATH search
+    # (ENOEXEC is what a script without `#!` gives -- execvp-style fallbacks live there)
+    for en in (8, 13, 2, 26, 7, 12, 20, 40, 36, 5, 1, 22, 21, 11, 4, 23, 24):
+        cases.append(f"in=N out=N err=N det=0 argv={TRUE},{hx('arg1')},{hx('arg2')} faults=C.exec.0.{en}")
+        cases.append(f"in=P out=P err=P det=0 argv={hx('prog')},{hx('a')} path={hx(d['good'] + ':' + d['good2'])} faults=C.exec.0.{en}")
+        if ctx.tier != "quick" or en in (8, 13, 26):
+            cases.append(f"in=N out=P err=N det=0 argv={hx('prog')} path={hx(d['missing'] + ':' + d['good'] + ':' + d['good2'])} "
+                         f"env={hx('A')}:{hx('1')} faults=C.exec.1.{en}")
     return cases
 
 
@@ -628,6 +658,17 @@ def gen_c18(ctx):
         for sp in ("ign", "dfl"):
             for (i, o, e) in (streams if k < 9 else [streams[rng.below(len(streams))]]):
                 cases.append(f"in={i} out={o} err={e} det=0 mask={m:x} sigpipe={sp} argv={TRUE}")
+    # ... and whatever else is asked of the child between the reset and the exec: identity, process group, working
+    # directory, executable override, explicit environment, PATH search, detached
+    dirs, cw = make_fs()
+    opts = ["uid=0", "gid=0", "uid=0 gid=0", "pgid=1", "uid=0 gid=0 pgid=1", f"cwd={hx(cw[10])}", f"exe={hx('/bin/true')}",
+            f"env={hx('A')}:{hx('1')}", "viaclone=1"]
+    for k, m in enumerate(masks[:9] if ctx.tier != "quick" else masks[:4]):
+        for sp in ("ign", "dfl"):
+            for opt in opts:
+                (i, o, e) = streams[(k + len(cases)) % len(streams)]
+                cases.append(f"in={i} out={o} err={e} det={len(cases) % 2} mask={m:x} sigpipe={sp} {opt} argv={TRUE}")
+            cases.append(f"in=N out=N err=N det=0 mask={m:x} sigpipe={sp} argv={hx('prog')} path={hx(dirs['missing'] + ':' + dirs['good'])}")
     return cases
 
 
@@ -806,3 +847,7 @@ def check(ctx):
     if prop == "C08" and not ctx.replay:
         import pipeline
         pipeline.extra_c08(ctx)
+    if prop == "C06" and not ctx.replay:
+        # the same request made through the builder (`Exec::arg/env/env_extend/env_remove/env_clear/cwd`)
+        import builder
+        builder.extra_c06(ctx)
